@@ -263,12 +263,12 @@ def body_once(kind, start, first, slices):
 
 def body___KIND__(start: int, first: int, k1: int, k2: int) -> bool:
     """
-    pre: 0 <= start <= 1 and 0 <= first <= 1 and 0 <= k1 <= 60 and 0 <= k2 <= 60
+    pre: 0 <= start <= 1 and 0 <= first <= 1 and 0 <= k1 <= 60 and 0 <= k2 <= __BK2__
     post: _
     """
     start = pick(start, 0, 1)
     with NoTracing():
-        return body_once(["mem", "sqlite"][__KIND__], start, first, [k1, k2])
+        return body_once(["mem", "sqlite"][__KIND__], start, first, [k1, k2] if __BK2__ else [k1])
 '''
 
 CLAIM = r'''
@@ -335,9 +335,9 @@ def run(ctx: Ctx) -> None:
     ctx.ch_batch("c02poll_canary", csrc, [Cond("poll2_1_0_0", "refute", 600)])
     # --- 3. the body never runs twice without a kill / recovery in between
     for kind, kname in ((0, "mem"), (1, "sqlite")):
-        bsrc = base + BODYF.replace("__KIND__", str(kind))
+        bsrc = base + BODYF.replace("__KIND__", str(kind)).replace("__BK2__", "60" if thorough else "0")
         ctx.ch_batch(f"c02body_{kname}", bsrc, [Cond(f"body_{kind}", "confirm", 1500)])
-    ctx.bounds["body"] = "two workers holding the same invocation object (one the legitimate owner, one stale) run the real DistributedInvocation.run twins, 2 preemptions with slices 0..60, both backends: the body executes at most once"
+    ctx.bounds["body"] = "two workers holding the same invocation object (one the legitimate owner, one stale) run the real DistributedInvocation.run twins, 1 preemption (thorough: 2) with slices 0..60, both backends: the body executes at most once"
     ctx.bounds["pollers"] = (f"2 pollers running the real get_invocations_to_run(1) twins; queue holds 1-3 copies of one id, optionally a second id, "
                              f"optionally the id also offered through the blocking list; {'2 preemptions' if thorough else '1 preemption'} with slice 0..{pk}")
     ctx.functions_encoded += [
